@@ -196,12 +196,15 @@ def run_cases(ck: Check, n2d: int, n3d: int):
         if np.any(u) and i % 3 == 0:
             lmax = max(1, int(math.sqrt(N))) if pre == "p3d" else N
             gk, gv = [], []
+            # the finite-difference oracle has an O(h^2) truncation error that does not depend on the
+            # amplitudes: remove it by subtracting the oracle's error on the unperturbed sphere (1/R exactly)
+            fd_err0 = mean_curvature3d(cls(pos, R, None, 0.0 * u), th, ph) - 1.0 / R
             for e in (4e-3 / lmax**2, 1e-3 / lmax**2):
                 de = cls(pos, R, None, e * u)
-                gk.append(abs(float(de.interface_curvature(*args)) - mean_curvature3d(de, th, ph)))
+                gk.append(abs(float(de.interface_curvature(*args)) - (mean_curvature3d(de, th, ph) - fd_err0)))
                 gv.append(abs(float(de.volume_approx) - volume3d_quadrature(de)) / R**3)
             ck.count("first_order_probes_3d")
-            if gk[1] > 0.15 * gk[0] + 3e-6 / R:
+            if gk[1] > 0.15 * gk[0] + 1e-7 / R:
                 ck.fail(f"{cls_name}: curvature does not agree with the true mean curvature to first order (discrepancy {gk[0]:.3g} -> {gk[1]:.3g} when amplitudes shrink 4x, R={R:.3g})",
                         {**sig, "check": "curvature_first_order"}, {**case, "direction": u.tolist()})
             if gv[1] > 0.15 * gv[0] + 1e-12:
